@@ -218,7 +218,7 @@ def mark_proper(job, mask):
     return job
 
 
-def run(ctx):
+def setup(ctx):
     ctx.rule = ("cases = (function, raster, list); non-trivial when the minimal window is a proper sub-window of "
                 "the raster; distinct by (family, raster contents, list)")
     ctx.assumptions = [
@@ -229,16 +229,19 @@ def run(ctx):
         "rasters without any kept cell are outside the property's domain (the window is undefined)",
         "lists are homogeneous python lists/tuples (numba cannot type [nan, 0]: that call raises)",
     ]
-    tally = Tally(ctx)
+    return Tally(ctx)
 
-    if ctx.replay:
-        blob = json.load(open(ctx.replay))
-        job = blob["case"]["job"]
-        cases = observe(ctx, [job], "replay", tally, "replay", parallel=1)
-        ctx.sample({"replayed": cases[0].get("out"), "scan": cases[0].get("scan")})
-        tally.finish()
-        return
 
+def replay(ctx, rec):
+    """re-run exactly the recorded case through the real trim / crop and the judge"""
+    tally = setup(ctx)
+    cases = observe(ctx, [rec["case"]["job"]], "replay", tally, "replay", parallel=1)
+    ctx.sample({"replayed": rec.get("clause"), "out": cases[0].get("out"), "scan": cases[0].get("scan")})
+    tally.finish()
+
+
+def run(ctx):
+    tally = setup(ctx)
     thorough = ctx.tier == "thorough"
     # ------------------------------------------------------------------ M
     # the code's scan (CODE_NANEQ) on NaN-free lists: full mask space
